@@ -31,6 +31,7 @@
 #include <boost/gil/extension/io/jpeg.hpp>
 #endif
 #include <algorithm>
+#include <fstream>
 #include <cmath>
 #include "c12_io_common.hpp"
 
@@ -74,8 +75,11 @@ static std::string round_trip(View const& v, Info const& info, Img& out, Tag tag
             gil::write_view(ss, v, info);
             nbytes = ss.str().size();
             phase = "read";
-            ss.seekg(0);
-            gil::read_image(ss, out, tag);
+            // read back alternately from the very stream that was written and from a stream that delivers the
+            // same bytes in pieces of 1, 2, 7, 64 or 4096 (get area refilled k bytes at a time)
+            static unsigned alt = 0; ++alt;
+            if (alt % 2 == 0) { ss.seekg(0); gil::read_image(ss, out, tag); }
+            else { std::string bytes = ss.str(); cio::stream_src src; std::istream& in = src.open((int)((alt / 2) % 5), bytes, 0); gil::read_image(in, out, tag); }
         } else if (sink == S_FILE) {
             round_trip_fileptr(v, info, out, tag, phase, nbytes, std::integral_constant<bool, use_file_ptr<Tag>::value>());
         } else {
@@ -84,7 +88,9 @@ static std::string round_trip(View const& v, Info const& info, Img& out, Tag tag
             struct stat sb;
             nbytes = stat(sf.path.c_str(), &sb) == 0 ? (size_t)sb.st_size : 0;
             phase = "read";
-            gil::read_image(sf.path, out, tag);
+            static unsigned altn = 0; ++altn;
+            if (altn % 2 == 0) gil::read_image(sf.path, out, tag);
+            else { std::ifstream in(sf.path.c_str(), std::ios::in | std::ios::binary); std::istream& is = in; gil::read_image(is, out, tag); }
         }
     } catch (std::exception const& e) {
         return std::string(e.what()).empty() ? "(empty what)" : e.what();
@@ -464,6 +470,48 @@ struct reuse_runner {
 // The reference of every step is the same bytes read into a *fresh* destination: what is demanded is
 // independence from the destination's previous state (the round trip itself is judged by the sweeps above),
 // so formats/types with a known round-trip finding do not raise it a second time here.
+// ---- delivery independence ---------------------------------------------------------------------------
+// A file of 30-180 KB (well over any stream buffer) and a small one are written once and read back through
+// every kind of input stream: get area refilled 1/2/7/64/4096/seeded bytes at a time, std::ifstream on a
+// scratch file, std::stringstream filled by write.  Each must give what a one-piece istringstream gives.
+template <class Tag, class Img, class Info>
+static void delivery_sweep(opts_t const& o, Info const& info, int bigw, int bigh) {
+    for (int kind = 0; kind < (int)cio::SK_COUNT; ++kind) {
+        std::string cls = vh::cat(o.fmt, ".", o.type, ".", cio::stream_kind_name(kind));
+        if (!vh::begin_case(vh::cat("delivery.", o.fmt), cls)) continue;
+        vh::rng r = vh::case_rng();
+        const int sizes[3][2] = { { bigw, bigh }, { 9, 7 }, { 1 + (int)r.below(60), 1 + (int)r.below(60) } };
+        long n = 0;
+        for (auto& q : sizes) {
+            Img src(q[0], q[1]); cio::fill_view(gil::view(src), r.next(), 0);
+            size_t seeded_k = 3 + (size_t)r.below(8190);
+            ++n; vh::evals(1);
+            try {
+                std::string bytes;
+                { std::stringstream ws(std::ios::in | std::ios::out | std::ios::binary); gil::write_view(ws, gil::view(src), info); bytes = ws.str(); }
+                Img ref, got;
+                { cio::stream_src s; std::istream& in = s.open(cio::SK_PLAIN, bytes, 0); gil::read_image(in, ref, Tag()); }
+                { cio::stream_src s; std::istream& in = s.open(kind, bytes, seeded_k); gil::read_image(in, got, Tag()); }
+                if (got.width() != ref.width() || got.height() != ref.height())
+                    vh::viol("delivery-dims." + cls, vh::cat(q[0], "x", q[1], " (", bytes.size(), " bytes): ", got.width(), "x", got.height(), " vs ", ref.width(), "x", ref.height(), " through a one-piece istringstream"));
+                else if (cio::hash_view(gil::const_view(got)) != cio::hash_view(gil::const_view(ref))) {
+                    long bad = 0, fx = -1, fy = -1;
+                    for (long y = 0; y < ref.height(); ++y) for (long x = 0; x < ref.width(); ++x) {
+                        uint64_t a[8], b[8]; typename Img::view_t::value_type pa = gil::const_view(ref)(x, y), pb = gil::const_view(got)(x, y);
+                        int k = cio::pixel_bits(pa, a); cio::pixel_bits(pb, b);
+                        for (int i = 0; i < k; ++i) if (a[i] != b[i]) { if (!bad) { fx = x; fy = y; } ++bad; break; }
+                    }
+                    vh::viol("delivery-pixels." + cls, vh::cat(q[0], "x", q[1], " (", bytes.size(), " bytes)", kind == cio::SK_FRAGSEEDED ? vh::cat(" k=", seeded_k) : std::string(), ": ", bad,
+                                                               " pixels differ from the read through a one-piece istringstream; first at (", fx, ",", fy, ")"));
+                }
+                if (bytes.size() > 65536) vh::obs("delivery.file-over-64KB");
+                else if (bytes.size() > 8192) vh::obs("delivery.file-over-8KB");
+            } catch (std::exception const& e) { vh::viol("delivery-exception." + cls, vh::cat(q[0], "x", q[1], ": ", e.what())); }
+        }
+        vh::distinct(n);
+        vh::obs(vh::cat("delivery.", cio::stream_kind_name(kind)));
+    }
+}
 template <class Tag, class P, int APIS, class AnyImg, class Info>
 static void reuse_sweep(opts_t const& o, Info const& info) {
     reuse_runner<Tag, P, Info, AnyImg> rr(o, info);
@@ -471,6 +519,7 @@ static void reuse_sweep(opts_t const& o, Info const& info) {
     rr.template api<RA_CONVERT>(std::integral_constant<bool, (APIS & RA_CONVERT) != 0>());
     rr.template api<RA_ANY>(std::integral_constant<bool, (APIS & RA_ANY) != 0>());
     rr.template api<RA_READ_VIEW>(std::integral_constant<bool, (APIS & RA_READ_VIEW) != 0>());
+    delivery_sweep<Tag, gil::image<P, false>>(o, info, 200, 150);
 }
 // bit-aligned images: read_image and read_view into a reused image object
 template <class Tag, class Img, class Info>
@@ -512,6 +561,7 @@ static void reuse_bits(opts_t const& o, Info const& info) {
         vh::distinct(n);
         vh::obs("reuse.bits");
     }
+    delivery_sweep<Tag, Img>(o, info, 1000, 264);
 }
 
 // =================================================================================================
